@@ -224,6 +224,8 @@ def generate(spec_dir, module, cfg, work, tag, marker="@@B", workers=8, simulate
              heap="8g", extra=None):
     """P2: run TLC and collect the JSON lines it prints (Print with marker). Returns list of objects.
     The spec prints behaviours from an invariant/constraint; TLC must end normally."""
+    if simulate:
+        workers = 1      # with a fixed -seed a single simulation worker is reproducible; several workers are not
     rc, out = tlc(spec_dir, module, cfg, work, tag, workers=workers, simulate=simulate, timeout=timeout, env=env,
                   heap=heap, deadlock_off=True, extra=extra)
     if rc not in (0,) and not (simulate and rc == 124):
